@@ -14,7 +14,8 @@
 From Coq Require Import ZArith List Bool.
 From BV Require Import Model.SemProg Model.CondProg Proofs.SemProgProofs Proofs.CondProofs Proofs.CondLive
   Proofs.CondWake Proofs.CondNotify.
-From BV Require Gen.P_cond.
+From BV Require Import Model.SemFork Proofs.SemForkProofs Proofs.CondFork.
+From BV Require Gen.P_cond Gen.G_semfork.
 Import ListNotations.
 Open Scope Z_scope.
 
@@ -298,6 +299,115 @@ Theorem C17_notify_one_wakes : forall sched g1 g2 es ok n j tn tu,
                   (v = 0 \/ v = 1) /\ (cid tu = 0%nat -> v = 1))).
 Proof. exact G_notify_one_uncond. Qed.
 Print Assumptions C17_notify_one_wakes.
+
+(* ---- FORKS (Model/SemFork.v): a process forks another at any scheduling point -- also while it holds locks, also in
+   the middle of wait / notify.  The child gets a COPY of every lock object, ownership count included, unless the
+   after-fork hook registered by SemLock.__init__ resets it; the kernel semaphores are shared, not copied.
+   [G_semfork.semlock_after_fork_guard] = where that registration stands in SemLock.__init__, read from the code on this
+   run; [named] = does the primitive keep its name (spawn / forkserver: yes; fork start method: no);
+   [gen_reset named] = resets_after_fork of that guard.  [frun] = a history of steps and forks ([AFork i sc]: process i
+   forks a child running the script sc). *)
+Theorem C17_code_after_fork_reset : forall named,
+    resets_after_fork G_semfork.semlock_after_fork_guard named = true /\
+    G_semfork.forked_child_runs_after_fork_hooks_before_target = true.
+Proof. intros named. split; [apply gen_after_fork_reset|exact gen_child_runs_hooks]. Qed.
+Print Assumptions C17_code_after_fork_reset.
+
+(* for ANY programs: a history with forks is a plain schedule of the system in which the children exist from the start,
+   holding nothing, and are not scheduled before their fork -- same final state, same events *)
+Theorem C17_fork_is_late_start : forall named code ss scripts acts g es,
+    frun code (gen_reset named) (init_sys code ss scripts) acts = (g, es, true) ->
+    run code (init_sys code ss (scripts ++ forked_of acts)) (steps_of acts) = (g, es, true).
+Proof. exact G_fork_is_late_start. Qed.
+Print Assumptions C17_fork_is_late_start.
+
+(* the child of a fork holds nothing, whatever its parent held *)
+Theorem C17_fork_child_holds_nothing : forall named code g i sc g',
+    fork code (gen_reset named) g i sc = Some g' ->
+    exists c, thr g' = thr g ++ [c] /\ sems g' = sems g /\ forall s, hs s c = 0.
+Proof. exact G_fork_child_holds_nothing. Qed.
+Print Assumptions C17_fork_child_holds_nothing.
+
+(* the primitive theorems over histories with forks, ANY programs *)
+Theorem C17_rlock_mutex_forks : forall named code s ss scripts acts g es ok i j ti tj,
+    recur (nth s ss dsem) = true -> val (nth s ss dsem) = 1 ->
+    frun code (gen_reset named) (init_sys code ss scripts) acts = (g, es, ok) ->
+    nth_error (thr g) i = Some ti -> nth_error (thr g) j = Some tj ->
+    0 < hs s ti -> 0 < hs s tj -> i = j.
+Proof. exact G_rlock_mutex_fork. Qed.
+Print Assumptions C17_rlock_mutex_forks.
+
+Theorem C17_lock_mutex_forks : forall named code s ss scripts acts g es ok i j ti tj,
+    recur (nth s ss dsem) = false -> val (nth s ss dsem) = 1 ->
+    frun code (gen_reset named) (init_sys code ss scripts) acts = (g, es, ok) ->
+    (forall t, In t (thr g) -> 0 <= hs s t) ->
+    nth_error (thr g) i = Some ti -> nth_error (thr g) j = Some tj ->
+    0 < hs s ti -> 0 < hs s tj -> i = j.
+Proof. exact G_lock_mutex_fork. Qed.
+Print Assumptions C17_lock_mutex_forks.
+
+Theorem C17_sem_bound_forks : forall named code s ss scripts acts g es ok,
+    recur (nth s ss dsem) = false -> 0 <= val (nth s ss dsem) ->
+    frun code (gen_reset named) (init_sys code ss scripts) acts = (g, es, ok) ->
+    0 <= vs s g /\ vs s g + sumz (hs s) (thr g) = val (nth s ss dsem).
+Proof. exact G_sem_bound_fork. Qed.
+Print Assumptions C17_sem_bound_forks.
+
+(* the Condition / Event code: [FReach g] = g is reached by the generated programs from an initial world by any history of
+   steps and forks (children running any scripts of client calls).  Such a state is [Reach]able without forks, so EVERY
+   theorem above stated for [Reach g] holds for it; the invariant, the mutual exclusion of the condition's lock and the
+   results of finished calls (untimed wait -> True, no exception) are spelled out *)
+Theorem C17_reach_with_forks : forall g, FReach g -> Reach g.
+Proof. exact freach_reach. Qed.
+Print Assumptions C17_reach_with_forks.
+
+Theorem C17_invariant_forks : forall g, FReach g -> Inv g.
+Proof. exact freach_inv. Qed.
+Print Assumptions C17_invariant_forks.
+
+Theorem C17_mutex_forks : forall g i j ti tj, FReach g ->
+    nth_error (thr g) i = Some ti -> nth_error (thr g) j = Some tj ->
+    0 < nth 0 (held ti) 0 -> 0 < nth 0 (held tj) 0 -> i = j.
+Proof. exact freach_mutex. Qed.
+Print Assumptions C17_mutex_forks.
+
+Theorem C17_results_forks : forall g t, FReach g -> In t (thr g) -> Forall okres (results t).
+Proof. exact freach_results. Qed.
+Print Assumptions C17_results_forks.
+
+(* the reset is what gives it.  WITHOUT it (hook not registered), on the generated programs:
+   (1) condition with an RLock: process 0, inside notify (it holds the lock), forks a child that calls notify: the child's
+       copy of the lock says "mine" and its acquire succeeds at once -- the lock has two holders;
+   (2) condition with a Lock: process 0, inside notify, forks a child that calls wait() without timeout; after process 0
+       has finished the child takes the lock, but its copy counts 2: wait() releases the lock `count` times, the second
+       release raises ValueError -- the untimed wait returns an exception instead of True and leaves an announced
+       sleeper that never acknowledges (sleeping_count 1, woken_count 0, nobody waiting) *)
+Theorem C17_fork_without_reset_refuted :
+  match frun P_cond.code false (gen_init true 1 [[(1%nat, 0, 0)]]) two_holders_acts with
+  | (g, es, ok) =>
+      ok = true /\ vv 0 g = 0 /\
+      match nth_error (thr g) 0, nth_error (thr g) 1 with
+      | Some t0, Some t1 => 0 < nth 0 (held t0) 0 /\ 0 < nth 0 (held t1) 0
+      | _, _ => False
+      end
+  end /\
+  match frun P_cond.code false (gen_init false 1 [[(1%nat, 0, 0)]]) wait_raises_acts with
+  | (g, es, ok) =>
+      ok = true /\ vv 1 g = 1 /\ vv 2 g = 0 /\
+      match nth_error (thr g) 1 with
+      | Some t1 => fin t1 = true /\ results t1 = [((0%nat, 0, 0), E_VALUE)]
+      | None => False
+      end
+  end.
+Proof. split; [exact fork_without_reset_two_holders|exact fork_without_reset_wait_raises]. Qed.
+Print Assumptions C17_fork_without_reset_refuted.
+
+(* non-vacuity: with the reset the history of (1) stops at the child's acquire -- it is blocked while its parent holds *)
+Example C17_fork_witness :
+  match frun P_cond.code true (gen_init true 1 [[(1%nat, 0, 0)]]) two_holders_acts with
+  | (g, es, ok) => ok = false /\ length (thr g) = 2%nat /\ es = [(0%nat, 0%nat, 0, 1)]
+  end.
+Proof. exact fork_with_reset_child_blocks. Qed.
 
 (* non-vacuity: a reachable state with an untimed waiter blocked (thread 0), a timed waiter
    that gave up and has not acknowledged yet, and a notify_all holding two sleepers and two
